@@ -192,7 +192,8 @@ def ids_suite(ctx, vh):
         ctx.extra.setdefault("ids", {})[rmode] = {"n": len(rows), "start_seq": start, "distinct": summary["distinct"]}
         # (a) all ids pairwise distinct (hash set in the harness; the kernel-checked reason is (b):
         #     HandshakeProofs.ids_rows_distinct turns (b) for rows i = 0..n-1 < 2^24 into NoDup)
-        distinct = summary["dups"] == 0 and summary["distinct"] == len(rows) and len(rows) <= 2 ** 24
+        distinct = (summary["dups"] == 0 and summary["distinct"] == len(rows) and len(rows) <= 2 ** 24
+                    and len(set(r["id"] for r in rows)) == len(rows))
         ctx.obligation("oracle:ids-distinct/" + rmode, "oracle", distinct,
                        "%d consecutive ids from sequence number %d, random source %s: %d distinct" % (
                            len(rows), start, rmode, summary["distinct"]))
@@ -208,14 +209,18 @@ def ids_suite(ctx, vh):
                           {"kind": "failing-input", "engine": "eiohttp -mode ids -rand %s -start %d -n %d" % (rmode, start, cnt),
                            "case": dup})
         # (b) each id is generate_id(seq, random bytes) and carries 24 bits of the sequence number
-        # quick: the first 3000 ids of the run (consecutive) + every 25th of the rest go through the kernel
-        keep = range(len(rows)) if not ctx.quick else sorted(set(range(min(3000, len(rows)))) | set(range(0, len(rows), 25)))
+        # kernel evaluation on a sample: the first ids of the run (consecutive), the ids around the point where
+        # the counter crosses 2^24 / 2^32 (index n/2 in the zero / repeat runs), and a regular sub-sample
+        nk = len(rows)
+        head, win, stride = (600, 150, max(1, nk // 400)) if ctx.quick else (6000, 1500, max(1, nk // 6000))
+        keep = sorted(set(range(min(head, nk))) | set(range(max(0, nk // 2 - win), min(nk, nk // 2 + win)))
+                      | set(range(0, nk, stride)) | {nk - 1})
         sample = [rows[i] for i in keep]
         terms = [gpair(gN(start), gN(i), gN(r["seq"]), gN(int.from_bytes(bytes(r["rnd"]), "big")),
                        gN(int.from_bytes(r["id"].encode(), "big"))) for i, r in zip(keep, sample)]
         for r in sample[:: max(1, len(sample) // 2000)]:
             ctx.count(0, nontrivial_key=("id", rmode, r["seq"]))
-        badi = eval_multi(ctx, "ids_" + rmode, HDR, terms, ["oracle_idN", "agree_idN"], shard=5000)
+        badi = eval_multi(ctx, "ids_" + rmode, HDR, terms, ["oracle_idN", "agree_idN"], shard=250)
         bad_o, bad_a = badi["oracle_idN"], badi["agree_idN"]
         ctx.obligation("oracle:ids-carry-seq/" + rmode, "oracle", not bad_o, "%d ids, %d fail" % (len(sample), len(bad_o)))
         ctx.obligation("correspondence:ids/" + rmode, "correspondence", not bad_a,
@@ -239,6 +244,13 @@ def race_suite(ctx, vh):
     if rows is None:
         return
     terms = []
+    usable = []
+    for r in rows:
+        if any(st == 101 and not sid for st, sid in zip(r["status"], r["sids"])):
+            ctx.indeterminate += 1      # websocket accepted but the OPEN packet was not read (connection cut by Close)
+            continue
+        usable.append(r)
+    rows = usable
     for r in rows:
         forced = r["kind"] != "free"
         terms.append("(%s : rcase)" % gpair(gbool(forced), gN(r["live"]), glist(gN(s) for s in r["status"]), gN(len(r["post"]["store"])),
